@@ -254,6 +254,33 @@ func roundTrip(orig any, root V, st *Stats) error {
 	if !ab || !ba || !ab2 || !ba2 {
 		return errf("second-generation container not Equal to first/original (%v %v %v %v): %s", ab, ba, ab2, ba2, c.Root.Show())
 	}
+	// the caller owns what the parser handed out: after both parsed containers were modified, the unchanged
+	// text must still parse to the original content
+	for _, p := range []any{parsed, parsed2} {
+		catch(func() {
+			switch x := p.(type) {
+			case at.List:
+				x.Insert(0, "edited by the caller").Add("edited by the caller")
+			case at.Object:
+				x.Set("edited by the caller", true)
+				for _, k := range sortedKeys(x) {
+					x.Set(k, "edited by the caller")
+					break
+				}
+			}
+		})
+	}
+	parsed3, err := parseRoot(c.Root.K, text)
+	if err != nil || parsed3 == nil {
+		return errf("parsing the same text again (after the earlier results were modified) failed: %v on %s", err, clip(text, 300))
+	}
+	snap3, serr := Snap(parsed3)
+	if serr != nil {
+		return errf("third parse: container inconsistent: %v", serr)
+	}
+	if !EqV(snap3, c.Root) {
+		return errf("parsing the same text again after the earlier parse results were modified gives other content:\n original: %s\n now:      %s", c.Root.Show(), snap3.Show())
+	}
 	return nil
 }
 
